@@ -13,6 +13,8 @@ Fault kinds (decided per exchange by `fault_fn(index, apdu)`):
   read_err_after   idem, but the device processed the APDU (response lost)
   timeout_before   device silent until the timeout, never saw the APDU
   timeout_after    device processed the APDU but the answer never arrives
+  timeout_late     device processed the APDU, the answer arrives after the host gave up and stays
+                   queued: the next exchange on the same handle reads it first
   ("sw", w)        device answers with status word w instead of processing
   ("raw", data, w) device answers data||w instead of processing
   ("wrongop", op)  device processes, answer has its opcode byte replaced
@@ -165,6 +167,13 @@ class FakeHidDevice:
         link.index += 1
         link.stats.exchanges += 1
         kind = link.fault_fn(idx, apdu) if link.fault_fn else None
+        # an answer that came in after the host had stopped waiting stays queued on the pipe (nothing
+        # flushes it): the next exchange reads it first, and its own answer waits behind it
+        carry = getattr(self, "stale_frames", [])
+        self.stale_frames = []
+        leftover = list(self.rqueue) if getattr(self, "lagging", False) else []
+        if carry:
+            self.lagging = True
         self.rqueue = []
         self.pending = None
         if kind == "write_err":
@@ -226,9 +235,16 @@ class FakeHidDevice:
             link.tlog("xchg", idx, apdu, kind, resp, "%04x" % sw)
             self.pending = "read_err" if kind.startswith("read_err") else "timeout"
             return len(data)
+        if kind == "timeout_late":
+            link.stats.fault(kind)
+            link.tlog("xchg", idx, apdu, kind, resp, "%04x" % sw)
+            framed = wrapCommandAPDU(CHANNEL, bytes(resp) + bytes([sw >> 8, sw & 0xff]), 64)
+            self.stale_frames = leftover + carry + [list(framed[i:i + 64]) for i in range(0, len(framed), 64)]
+            self.pending = "timeout"
+            return len(data)
         link.tlog("xchg", idx, apdu, resp, "%04x" % sw)
         framed = wrapCommandAPDU(CHANNEL, bytes(resp) + bytes([sw >> 8, sw & 0xff]), 64)
-        self.rqueue = [list(framed[i:i + 64]) for i in range(0, len(framed), 64)]
+        self.rqueue = leftover + carry + [list(framed[i:i + 64]) for i in range(0, len(framed), 64)]
         self.first_read_done = False
         self.ready_at = link.clock.now + (link.latency_fn(apdu) if link.latency_fn else 0.0)
         return len(data)
